@@ -2,7 +2,9 @@
    Property theorems over the model of evidence/pool.go, evidence/verify.go, types/evidence.go
    (Model.v), for the code WITH the repairs F4 (CheckEvidence does not store and count pending
    evidence again) and F24 (Update prunes expired pending evidence at every height).  The
-   unrepaired behaviours are refuted at the end.
+   unrepaired behaviours are refuted at the end.  Section 10 relates the model of
+   GetByzantineValidators (WITH the repair F57) / validateABCIEvidence / VerifyLightClientAttack /
+   Pool.verify to the independent specification of light client attack evidence (Spec.v).
 
    Reading guide.  [env] is the immutable chain (block store + state store); [Inv en p] is the
    pool invariant (pending keys strictly ordered, size = number of pending items, pending and
@@ -11,7 +13,7 @@
    with the state after a block that is in the block store); [env_mono]: block times do not
    decrease with the height (enforced by block validation, property C06). *)
 From Coq Require Import List ZArith NArith Bool Lia.
-From TM Require Import Generated.Consts C11.Model C11.Proofs.
+From TM Require Import Generated.Consts C11.Model C11.Proofs C11.Spec C11.SpecProofs.
 Import ListNotations.
 Open Scope Z_scope.
 
@@ -157,6 +159,80 @@ Proof.
 Qed.
 Print Assumptions C11_pending_within_budget.
 
+(* ---- 10. light client attack evidence against its SPECIFICATION (Spec.v, written from
+   spec/light-client/attacks/isolate-attackers and the doc comments, not from the code):
+     lunatic       the members of the common-height validator set that signed FOR the
+                   conflicting block (a precommit for nil or an absent slot is no signature for it);
+     equivocation  the validators that signed for both blocks in the same round;
+     amnesia       nobody;
+   reported with address and power of the validator set of the evidence's height, ordered by
+   power then address, each once.
+
+   [byz_wf] (SpecProofs.v): addresses are unique in a validator set; the conflicting commit is a
+   genuine commit of the conflicting validator set (every slot that is not absent carries the
+   address of the validator of that index and a signature verifying under its key - the code
+   itself verifies signatures only until the power thresholds are reached, C07); a conflicting
+   header with our derived hashes comes with our validator set of that height and the evidence
+   is formed for that height. *)
+
+(* the specification determines the list *)
+Theorem C11_byz_list_unique : forall l vals tvals t a b,
+  byz_ok l vals tvals t a = true -> byz_ok l vals tvals t b = true -> a = b.
+Proof. exact byz_ok_unique. Qed.
+Print Assumptions C11_byz_list_unique.
+
+(* GetByzantineValidators (repaired) computes the specified list *)
+Theorem C11_byz_model_meets_spec : forall l vals tvals t,
+  byz_wf l vals tvals t -> byz_ok l vals tvals t (byz_validators l vals t) = true.
+Proof. exact byz_model_meets_spec. Qed.
+Print Assumptions C11_byz_model_meets_spec.
+
+(* validateABCIEvidence accepts exactly: the right total power and THE specified list (and, a
+   Go-level addition, not a non-nil empty slice) *)
+Theorem C11_validate_abci_iff_spec : forall l vals tvals t,
+  byz_wf l vals tvals t ->
+  (validate_abci l vals t = true <->
+   l_total l = vs_total vals /\ byz_ok l vals tvals t (claimed_of l) = true /\
+   empty_not_nil l = false).
+Proof.
+  intros l vals tvals t W. rewrite (validate_abci_spec l vals tvals t W).
+  rewrite !andb_true_iff, Z.eqb_eq, negb_true_iff. tauto.
+Qed.
+Print Assumptions C11_validate_abci_iff_spec.
+
+(* Pool.verify of light client attack evidence is the standalone predicate [lca_valid] *)
+Theorem C11_lca_valid_iff_spec : forall en st e l,
+  e_body e = EvLca l -> lca_wf en l ->
+  (verify en st e = true <-> lca_valid en st l = true /\ empty_not_nil l = false).
+Proof.
+  intros en st e l B W. rewrite (verify_lca_spec en st e l B W).
+  rewrite andb_true_iff, negb_true_iff. tauto.
+Qed.
+Print Assumptions C11_lca_valid_iff_spec.
+
+(* so AddEvidence admits light client attack evidence only with the specified byzantine
+   validators, and admits the genuine evidence that lists them *)
+Theorem C11_lca_admit_iff_spec : forall en p e l,
+  e_body e = EvLca l -> lca_wf en l ->
+  (snd (add_evidence en p e) = AddedNew <->
+   is_pending p e = false /\ is_committed p e = false /\
+   lca_valid en (p_st p) l = true /\ empty_not_nil l = false).
+Proof.
+  intros en p e l B W. rewrite C11_admit_iff, (C11_lca_valid_iff_spec en (p_st p) e l B W). tauto.
+Qed.
+Print Assumptions C11_lca_admit_iff_spec.
+
+(* and what ABCI() hands to the application for valid evidence is the specified list, with the
+   common height, the time of its block and the total power of its validator set *)
+Theorem C11_abci_reports_spec : forall en st e l,
+  e_body e = EvLca l -> lca_wf en l -> verify en st e = true ->
+  abci_ok en l (abci_of l) = true.
+Proof.
+  intros en st e l B W V. apply (C11_lca_valid_iff_spec en st e l B W) in V as [V _].
+  eapply lca_valid_abci; eauto.
+Qed.
+Print Assumptions C11_abci_reports_spec.
+
 (* ------------------------------------------------------------------ non-vacuity: a concrete
    chain, genuine evidence, a history that admits, checks, reports, commits, restarts *)
 
@@ -164,7 +240,7 @@ Definition ns := 1000000000.
 Definition vs0 : valset := [ {| va_addr := 1; va_power := 10 |}; {| va_addr := 2; va_power := 5 |} ].
 Definition hdr0 (h : Z) : header :=
   {| h_time := h * ns; h_hash := Z.to_N h; h_vh := 11; h_nvh := 12; h_ch := 13; h_ah := 14;
-     h_lrh := 15; h_has_commit := true; h_round := 0; h_absent := [false; false] |}.
+     h_lrh := 15; h_has_commit := true; h_round := 0; h_flags := [2; 2] |}.
 Definition en0 : env :=
   {| en_meta := fun h => if (1 <=? h) && (h <=? 8) then Some (hdr0 h) else None;
      en_vals := fun h => if (1 <=? h) && (h <=? 9) then Some vs0 else None;
@@ -183,8 +259,8 @@ Definition lca0 : evidence :=
   {| e_hash := 900; e_size := 700;
      e_body := EvLca {| l_common := 2; l_height := 2; l_ctime := 2 * ns; l_chash := 77;
                         l_vh := 11; l_nvh := 12; l_ch := 13; l_ah := 14; l_lrh := 15;
-                        l_round := 1; l_sigs := [ {| cs_flag := 2; cs_addr := 1 |};
-                                                  {| cs_flag := 2; cs_addr := 2 |} ];
+                        l_round := 1; l_sigs := [ {| cs_flag := 2; cs_addr := 1; cs_ok := true |};
+                                                  {| cs_flag := 2; cs_addr := 2; cs_ok := true |} ];
                         l_cvals := vs0; l_byz := None; l_total := 15; l_time := 2 * ns;
                         l_trusting_ok := true; l_light_ok := true; l_basic_ok := true |} |}.
 Definition hint0 : hint := {| hi_hash := 333; hi_size := 100; hi_sa := true; hi_sb := true |}.
@@ -262,4 +338,91 @@ Example C11_unrepaired_F24_refuted :
   map e_hash (p_pending p) = [101%N] /\ ev_expired (p_st p) (dv 2 101) = true /\
   snd (check_evidence true en0 p [dv 2 101]) = true /\
   verify en0 (p_st p) (dv 2 101) = false.
+Proof. vm_compute. auto. Qed.
+
+(* ------------------------------------------------------------------ light client attacks with
+   precommits for nil and absent slots *)
+
+Definition vs4 : valset :=
+  [ {| va_addr := 1; va_power := 10 |}; {| va_addr := 2; va_power := 10 |};
+    {| va_addr := 3; va_power := 10 |}; {| va_addr := 4; va_power := 10 |} ].
+Definition hdr4 (h : Z) : header :=
+  {| h_time := h * ns; h_hash := Z.to_N h; h_vh := 11; h_nvh := 12; h_ch := 13; h_ah := 14;
+     h_lrh := 15; h_has_commit := true; h_round := 0; h_flags := [2; 2; 3; 2] |}.
+Definition en4 : env :=
+  {| en_meta := fun h => if (1 <=? h) && (h <=? 8) then Some (hdr4 h) else None;
+     en_vals := fun h => if (1 <=? h) && (h <=? 9) then Some vs4 else None;
+     en_store_height := 8 |}.
+Definition sl (flag : Z) (a : N) : csig :=
+  {| cs_flag := flag; cs_addr := a; cs_ok := negb (flag =? block_id_flag_absent) |}.
+(* lunatic (another app hash) at height 5 from common height 2: 1 and 2 sign for the block,
+   3 precommits nil, 4 is absent, a phantom validator 9 signs for it *)
+Definition phantom : valinfo := {| va_addr := 9; va_power := 50 |}.
+Definition lunatic_with (byz : option (list valinfo)) : lca :=
+  {| l_common := 2; l_height := 5; l_ctime := 5 * ns; l_chash := 555;
+     l_vh := 21; l_nvh := 12; l_ch := 13; l_ah := 99; l_lrh := 15; l_round := 0;
+     l_sigs := [sl 2 1; sl 2 2; sl 3 3; sl 1 0; sl 2 9]; l_cvals := vs4 ++ [phantom];
+     l_byz := byz; l_total := 40; l_time := 2 * ns;
+     l_trusting_ok := true; l_light_ok := true; l_basic_ok := true |}.
+Definition v_ (a : N) : valinfo := {| va_addr := a; va_power := 10 |}.
+(* equivocation at height 3, round 0: in the conflicting commit 1, 2, 3 sign for the block and 4
+   precommits nil; in our commit 1, 2, 4 signed for the block and 3 precommitted nil *)
+Definition equiv_with (byz : option (list valinfo)) : lca :=
+  {| l_common := 3; l_height := 3; l_ctime := 3 * ns; l_chash := 333;
+     l_vh := 11; l_nvh := 12; l_ch := 13; l_ah := 14; l_lrh := 15; l_round := 0;
+     l_sigs := [sl 2 1; sl 2 2; sl 2 3; sl 3 4]; l_cvals := vs4;
+     l_byz := byz; l_total := 40; l_time := 3 * ns;
+     l_trusting_ok := true; l_light_ok := true; l_basic_ok := true |}.
+Definition as_ev (l : lca) : evidence := {| e_hash := 1; e_size := 1; e_body := EvLca l |}.
+
+Example C11_byz_spec_nonvacuous :
+  (* lunatic: exactly the two members of the common set that signed for the block *)
+  lca_valid en4 (st_at 3) (lunatic_with (Some [v_ 1; v_ 2])) = true /\
+  verify en4 (st_at 3) (as_ev (lunatic_with (Some [v_ 1; v_ 2]))) = true /\
+  (* ... not the nil voter, the absent one, the phantom, one too few, another order *)
+  map (fun b => (lca_valid en4 (st_at 3) (lunatic_with b),
+                 verify en4 (st_at 3) (as_ev (lunatic_with b))))
+      [Some [v_ 1; v_ 2; v_ 3]; Some [v_ 1; v_ 2; v_ 4]; Some [phantom; v_ 1; v_ 2];
+       Some [v_ 1]; Some [v_ 2; v_ 1]; None]
+  = repeat (false, false) 6 /\
+  (* equivocation: 1 and 2 signed for both blocks; 3 and 4 precommitted nil on one side *)
+  lca_valid en4 (st_at 3) (equiv_with (Some [v_ 1; v_ 2])) = true /\
+  verify en4 (st_at 3) (as_ev (equiv_with (Some [v_ 1; v_ 2]))) = true /\
+  map (fun b => (lca_valid en4 (st_at 3) (equiv_with b),
+                 verify en4 (st_at 3) (as_ev (equiv_with b))))
+      [Some [v_ 1; v_ 2; v_ 3; v_ 4]; Some [v_ 1; v_ 2; v_ 3]; Some [v_ 1; v_ 2; v_ 4]; Some [v_ 1]]
+  = repeat (false, false) 4 /\
+  abci_of (equiv_with (Some [v_ 1; v_ 2])) = [(2, 1%N, 10, 3, 3 * ns, 40); (2, 2%N, 10, 3, 3 * ns, 40)].
+Proof. vm_compute. repeat split; reflexivity. Qed.
+
+Lemma slots_genuine_sl : forall cv sg,
+  Forall2 (fun v s => s = sl (cs_flag s) (va_addr v) \/ cs_flag s = block_id_flag_absent) cv sg ->
+  Forall2 slot_genuine cv sg.
+Proof.
+  intros cv sg F. induction F as [|v s cv sg H F IH]; constructor; auto.
+  intro NA. destruct H as [H | H]; [|contradiction]. rewrite H. cbn. split; auto.
+  apply negb_true_iff. apply Z.eqb_neq. rewrite H in NA. exact NA.
+Qed.
+
+(* the hypotheses of the theorems of section 10 hold of these two *)
+Example C11_byz_wf_nonvacuous : forall b,
+  lca_wf en4 (lunatic_with b) /\ lca_wf en4 (equiv_with b).
+Proof.
+  intro b. split; intros vals th t V R; vm_compute in V, R; inversion V; inversion R; subst;
+    (constructor;
+     [ repeat (constructor; [cbn; intuition discriminate|]); constructor
+     | repeat (constructor; [cbn; intuition discriminate|]); constructor
+     | apply slots_genuine_sl;
+       repeat (constructor; [first [left; reflexivity | right; reflexivity]|]); constructor
+     | try (intro H; vm_compute in H; discriminate); intros _; repeat split ]).
+Qed.
+
+(* F57: the unrepaired GetByzantineValidators (every slot that is not absent on both sides)
+   also names 3 and 4, which signed for one block only: not the specified list *)
+Example C11_unrepaired_F57_refuted :
+  let l := equiv_with None in
+  byz_validators_gen false l vs4 (hdr4 3) = [v_ 1; v_ 2; v_ 3; v_ 4] /\
+  byz_ok l vs4 vs4 (hdr4 3) (byz_validators_gen false l vs4 (hdr4 3)) = false /\
+  byz_validators l vs4 (hdr4 3) = [v_ 1; v_ 2] /\
+  byz_ok l vs4 vs4 (hdr4 3) (byz_validators l vs4 (hdr4 3)) = true.
 Proof. vm_compute. auto. Qed.
